@@ -11,9 +11,11 @@ HOOKS = {
 ENGINES = [
     {"name": "tlc", "path": "/verif/lib/vlib/tlc.py", "kind_free_text": "TLC 1.8 explicit-state model checker over spec/*.tla",
      "serves_properties": []},
-    {"name": "harness-agent", "path": "/verif/harness/agent", "serves_properties": ["C02", "C19"],
+    {"name": "harness-agent", "path": "/verif/harness/agent", "serves_properties": ["C02", "C19", "C18", "C16"],
      "kind_free_text": "cargo crate compiling /repo/proxy_agent/src through symlinks with the verif cfg; drivers: "
                        "function tables, proxy rig (real ProxyServer + mock hosts in a netns), disk, ..."},
+    {"name": "harness-ebpf", "path": "/verif/harness/ebpf", "serves_properties": ["C06"],
+     "kind_free_text": "gcc build of the unmodified eBPF C program against shim headers + Rust codec built from ebpf_obj.rs"},
     {"name": "harness-ext", "path": "/verif/harness/ext", "serves_properties": ["C20"],
      "kind_free_text": "cargo crate compiling /repo/proxy_agent_extension/src through symlinks; replays TLC graphs"},
 ]
@@ -24,6 +26,19 @@ NOTES = ("Every check: bin/check <id> --tier quick|thorough. TLA+ specs in spec/
 NOT_APPLICABLE = {}
 
 CHECKS = {
+    "C06": {
+        "text": "Ebpf.tla models the two kernel hook points (cgroup/connect4, kprobe tcp_connect) as separately "
+                "interleavable steps of arbitrary threads over the four maps; TLC checks RedirectExactly, RecordTruth, "
+                "NoRecordOtherwise, AgentUntouched exhaustively for 4 threads (uid != gid, pid != tid, the agent); "
+                "TLC-generated behaviours are replayed step by step on a user-space build of the UNMODIFIED "
+                "ebpf_cgroup.c/socket.h (gcc + shim helpers/maps), with policy/skip keys produced by the repo's Rust "
+                "encoders and audit records decoded by the repo's Rust decoders, and seeded random runs (up to 200 "
+                "connections in flight) are validated by TLC against the property-level trace spec.",
+        "note": "BPF helper/map semantics are a user-space model after bpf-helpers(7) (strict LRU); verifier/JIT and a "
+                "live kernel attach are not involved (CONFIG_KPROBES is off in the sandbox). x86-64 only.",
+        "technique": "TLA+ spec + TLC model checking; spec->impl step replay on the compiled C program; impl->spec trace validation",
+        "design_ref": "DESIGN.md §3 Ebpf.tla",
+    },
     "C02": {
         "text": "TLC enumerates three complete small universes of (rule document, caller, URL) -- every privilege "
                 "path/query shape, every grant-chain shape with dangling and duplicate names and absent sections -- "
